@@ -209,6 +209,17 @@ CRASH_PROBES = [
     ("meta-no-doc", "MetaData M {\n    u8 A,\n}\nroot packet P {\n    A x,\n}\n"),
     ("refmeta-no-doc", "MetaData M {\n    u8 A `a`,\n    A B,\n}\nroot packet P {\n    B x,\n}\n"),
     ("refmeta-unknown", "MetaData M {\n    Zz B `b`,\n}\nroot packet P {\n    B x,\n}\n"),
+] + [("refmeta-unknown/" + nm, "MetaData M {\n    Zz B `b`,\n}\nroot packet P {\n    %s\n    Q b,\n}\npacket Q {\n}\n" % use) for nm, use in [
+    ("bare", "B,"), ("repeat", "repeat B xs,"), ("typeless-length", "B @lengthOf(b),"), ("typeless-checksum", "B @calculatedFrom(\"X\"),"),
+    ("prefixed-length", "@lengthOf(b)\n    B,"), ("prefixed-checksum", "@calculatedFrom(\"X\")\n    B,"), ("padded", "@leftPad('0')\n    B x,"),
+    ("tagged", "@tag(3)\n    B x,"), ("as-key", "B k,\n    match k as m {\n        1 : Q,\n    },"), ("in-inline", "G {\n        B x,\n    },"),
+    ("ref-of-ref", "u8 a,")]
+] + [("refmeta-chain", "MetaData M {\n    Zz B `b`,\n    B C `c`,\n}\nroot packet P {\n    C x,\n    C @calculatedFrom(\"X\"),\n}\n"),
+     ("huge-fixed-63", "root packet P {\n    char[9000000000000000000] a,\n}\n"),
+     ("huge-fixed-32", "root packet P {\n    char[4294967296] a,\n    zchar[2147483648] b,\n}\n"),
+     ("huge-fixed-meta", "MetaData M {\n    char[9000000000000000000] A `a`,\n}\nroot packet P {\n    A x,\n}\n"),
+     ("huge-key", "root packet P {\n    u8 k,\n    match k as m {\n        99999999999999999999999999 : Q,\n    },\n}\npacket Q {\n}\n"),
+     ("huge-key-list", "root packet P {\n    u64 k,\n    match k as m {\n        [18446744073709551616, 1] : Q,\n    },\n}\npacket Q {\n}\n"),
     ("pad-on-scalar", "root packet P {\n    @leftPad('0')\n    u8 x,\n}\n"),
     ("pad-on-string", "root packet P {\n    @rightPad(' ')\n    string x,\n}\n"),
     ("pad-on-object", "root packet P {\n    @leftPad('0')\n    Q q,\n}\npacket Q {\n}\n"),
